@@ -150,6 +150,7 @@ pub fn run_dedup(sink: &mut Sink, t: &GTree, path: &[usize]) {
     let idx = paths.iter().position(|p| p.as_slice() == path).expect("path exists");
     let node = nodes[idx];
     let before_str = guarded(|| xot.to_string(root));
+    let before_node_str = guarded(|| xot.to_string(node));
     let done = guarded(|| xot.deduplicate_namespaces(node));
     sink.stat("op.dedup");
     let req = format!("scope dedup {} {}", path_str(path), t.wire());
@@ -162,7 +163,7 @@ pub fn run_dedup(sink: &mut Sink, t: &GTree, path: &[usize]) {
     let after = read_tree(&xot, &mut vocab, root);
     sink.stat(if &after == t { "dedup.unchanged" } else { "dedup.removed-something" });
     sink.emit(req, format!("ok {}", after.wire()));
-    oracle::check_dedup(sink, &mut xot, &mut vocab, t, path, root, node, &after, before_str);
+    oracle::check_dedup(sink, &mut xot, &mut vocab, t, path, root, node, &after, before_str, before_node_str);
 }
 
 // ---------------------------------------------------------------------------------------------
